@@ -39,6 +39,9 @@ type p01Gen struct {
 	calleeKind int    // -1 until the first call is generated
 	calleeFlag bool
 	simple     int
+	t          bool // P01L: "t is nil"
+	usesVal    bool // P01L: t.val() is called somewhere
+	valHit     bool // P01L: some call of t.val() had a nil receiver
 }
 
 func (g *p01Gen) emit(s string) int {
@@ -147,6 +150,38 @@ func (g *p01Gen) stmt(compound int) {
 	}
 }
 
+// emitCallee prints the callee chosen at the first call and returns the line of its unchecked dereference (0 if none).
+func (g *p01Gen) emitCallee() int {
+	calleeDeref := 0
+	g.emit("")
+	g.emit("func callee(a *int) *int {")
+	switch g.calleeKind {
+	case 0:
+		g.emit("\treturn a")
+	case 1:
+		g.emit("\treturn nil")
+	case 2:
+		g.emit("\treturn new(int)")
+	case 3:
+		calleeDeref = g.emit("\t_ = *a")
+		g.emit("\treturn a")
+	case 4:
+		g.emit("\tif a == nil {")
+		g.emit("\t\treturn new(int)")
+		g.emit("\t}")
+		g.emit("\treturn a")
+	case 5:
+		g.emit("\tif calleeflag {")
+		g.emit("\t\treturn nil")
+		g.emit("\t}")
+		g.emit("\treturn a")
+	default:
+		g.emit("\treturn g")
+	}
+	g.emit("}")
+	return calleeDeref
+}
+
 func Harness_P01() {
 	n := ndParam("STMTS", 2)
 	compound := ndParam("COMPOUND", 5) // how many of the compound forms are enabled (0..6)
@@ -165,36 +200,16 @@ func Harness_P01() {
 	g.emit("}")
 	calleeDeref := 0
 	if g.calleeKind >= 0 {
-		g.emit("")
-		g.emit("func callee(a *int) *int {")
-		switch g.calleeKind {
-		case 0:
-			g.emit("\treturn a")
-		case 1:
-			g.emit("\treturn nil")
-		case 2:
-			g.emit("\treturn new(int)")
-		case 3:
-			calleeDeref = g.emit("\t_ = *a")
-			g.emit("\treturn a")
-		case 4:
-			g.emit("\tif a == nil {")
-			g.emit("\t\treturn new(int)")
-			g.emit("\t}")
-			g.emit("\treturn a")
-		case 5:
-			g.emit("\tif calleeflag {")
-			g.emit("\t\treturn nil")
-			g.emit("\t}")
-			g.emit("\treturn a")
-		default:
-			g.emit("\treturn g")
-		}
-		g.emit("}")
+		calleeDeref = g.emitCallee()
 	}
 	src := g.b.String()
 	ndObserveStr("source", src)
 
+	g.judge(src, calleeDeref, 0)
+}
+
+// judge runs the pipeline on the program and states the obligations P01.A1-A4.
+func (g *p01Gen) judge(src string, calleeDeref, valLine int) {
 	r := pipeAnalyse(src)
 	ndObserveInt("diagnostics", len(r.diags))
 	internal := r.panicked != "" || len(r.funcErrs) > 0
@@ -211,6 +226,9 @@ func Harness_P01() {
 	if calleeDeref > 0 {
 		nUnchecked++
 	}
+	if g.usesVal {
+		nUnchecked++
+	}
 	if nUnchecked == 0 {
 		ndAssert("P01.A2.a_program_with_only_nil_checked_dereferences_is_not_reported", !reported)
 	}
@@ -218,6 +236,8 @@ func Harness_P01() {
 		lines := r.lines()
 		if calleeDeref > 0 {
 			ndAssert("P01.A3.the_only_unchecked_dereference_is_reported_at_its_line", ndImplies(g.panics, lines[calleeDeref]))
+		} else if g.usesVal {
+			ndAssert("P01.A3.the_only_unchecked_dereference_is_reported_at_its_line", ndImplies(g.valHit, lines[valLine]))
 		} else {
 			ndAssert("P01.A3.the_only_unchecked_dereference_is_reported_at_its_line", ndImplies(g.uncheckedP[0], lines[g.unchecked[0]]))
 		}
